@@ -207,6 +207,44 @@ def c06_queries(fns, polls, incs, log):
     return res
 
 
+def c06_flag_queries(fns_list, K, log):
+    """K threads poll `reloaded_global` once each while one reload sets the flag: a reload is reported to at most one of them."""
+    res = []
+    cands = [f for f in fns_list if re.fullmatch(r"entry::<impl at src/entry\.rs:[\d: ]+>::reloaded_global::\{closure#1\}", f.name)]
+    if not cands:
+        raise Unsupported("reloaded_global::{closure#1} not found in the MIR dump")
+    for ci, f in enumerate(cands):
+        sc = Scenario(f"C06-flag{ci}-K{K}")
+        sc.cells["g"] = "(_ bv0 64)"
+        shared = {"D": Struct({0: M.Konst("lock"), 1: AtomicCell("g")})}
+        rets, encoded = [], set()
+        for t in range(K):
+            ex = Exec({"poll": f}, t, shared)
+            ps = paths_of(ex, "poll", [M.Konst("env"), Ref("D")])
+            sc.threads.append([p for (_, p, _) in ps])
+            rets.append(ite_over_sel(t, [r.t for (_, _, r) in ps], "false"))
+            encoded |= ex.encoded
+        w = M.Path()
+        w.events.append(M.Event("atomic", "g", "store", "(_ bv1 64)", None, "Ordering::Release"))   # the write section sets the flag (C07)
+        sc.threads.append([w])
+        lines, S = M.encode(sc, [])
+        bounds = f"{K} threads polling reloaded_global once each against one reload that sets the flag (flag initially clear), all interleavings (SC)"
+        v, model, dt, raw = M.solve(lines)
+        res.append(result(f"{sc.name}:scenario_satisfiable", v, "sat", dt, bounds))
+        pairs = [f"(and {rets[i]} {rets[j]})" for i in range(K) for j in range(i + 1, K)]
+        props = [("one_reload_reported_at_most_once", "(not (or " + " ".join(pairs) + "))"),
+                 ("reported_or_still_pending", f"(or {' '.join(rets)} (= m_g_{S} (_ bv1 64)))")]
+        for name, term in props:
+            v, model, dt, raw = M.solve(lines + [f"(assert (not {term}))"], want_model_vars=[f"who_{s}" for s in range(S)])
+            r = result(f"{sc.name}:{name}", v, "unsat", dt, bounds, {"functions": sorted(encoded)})
+            if v == "sat":
+                r["counterexample"] = model
+                r["why"] = "one reload is reported to two pollers of reloaded_global (test-and-clear is not one atomic step), or a reload is lost"
+            res.append(r)
+            log(f"[E2] {sc.name}:{name}: {v} ({dt:.2f}s)")
+    return res
+
+
 def c16_queries(fns, K, with_clone, log):
     """K threads, each owning one handle of the same buffer: [clone; read clone; drop clone;] read; drop."""
     sc = Scenario(f"C16-K{K}-{'clone' if with_clone else 'plain'}")
@@ -374,9 +412,12 @@ def validate_translator(fns, log):
 def confirm_natively(prop, results, log):
     """E2 counterexamples are schedules; before they are reported the real build is stressed natively."""
     bad = [r for r in results if r.get("outcome") == "fail"]
-    if not bad or prop not in ("C18", "C16"):
+    if prop == "C06":
+        # only the flag queries have a native stress; the counter queries are reported with their schedule
+        bad = [r for r in bad if "-flag" in r.get("query", "")]
+    if not bad or prop not in ("C18", "C16", "C06"):
         return
-    binname = "e2_c18_stress" if prop == "C18" else "e2_c16_stress"
+    binname = {"C18": "e2_c18_stress", "C16": "e2_c16_stress", "C06": "e2_c06_flag_stress"}[prop]
     try:
         rc, out = native(binname, [], timeout=900)
     except Exception as e:  # noqa
@@ -410,8 +451,17 @@ def run(prop, ctx, log):
             return out
         if prop in ("C09", "C10"):
             import reloadk
-            fl, text = load_functions(os.environ.get("VERIF_REPO", "/repo"), scratch, raw=True)
-            return reloadk.reload_queries(fl, log, native, result)
+            repo = os.environ.get("VERIF_REPO", "/repo")
+            fl, text = load_functions(repo, scratch, raw=True)
+            out = reloadk.reload_queries(fl, log, native, result)
+            if prop == "C09":
+                # which error a failing load reports (a fault on a later extension must not be masked by "not found")
+                import seqfold
+                out += seqfold.c03_queries(repo, fl, text, 3, log, native, result)[0]
+                # a failed reload does not keep the rest of the batch stale
+                import runupdk
+                out += runupdk.runupd_queries(fl, 6 if thorough else 3, log, native, result)
+            return out
         if prop in ("C01", "C02"):
             import shards
             fl, text = load_functions(os.environ.get("VERIF_REPO", "/repo"), scratch, raw=True)
@@ -424,6 +474,13 @@ def run(prop, ctx, log):
             if thorough:
                 out += c18_queries(fns, 3, log)
         elif prop == "C06":
+            os.makedirs(scratch + "/flag", exist_ok=True)
+            fl = M.parse_mir(M.dump_mir(os.environ.get("VERIF_REPO", "/repo"), scratch + "/flag"))
+            import runupdk
+            out += runupdk.runupd_queries(fl, 6 if thorough else 3, log, native, result)   # every affected asset reloaded exactly once per pass
+            out += c06_flag_queries(fl, 2, log)
+            if thorough:
+                out += c06_flag_queries(fl, 3, log)
             out += c06_queries(fns, 2, 1, log)
             out += c06_queries(fns, 2, 2, log) if thorough else []
             out += c06_queries(fns, 3, 1, log) if thorough else []
